@@ -1435,6 +1435,75 @@ def exchange_verdict(case, r):
     return bad
 
 
+# =======================================================================================
+# Generator 4: bystanders with multi-step progress.  The run WITH the faulty flow, projected to the
+# outputs of the bystanders, must equal the run in which the same flow does not fail.  Bystander
+# kinds: plain started flow, awaited child of another (healthy) flow, flow activated by a healthy
+# flow only, flow activated by a healthy flow AND by the faulty flow (shared reference).
+
+BY_KINDS = ["plain", "awaited", "acthealthy", "actshared"]
+
+
+def gen_progress_pairs(rng, n):
+    pairs = []
+    slide_stmts = [t for t in STMTS + ACTION_STMTS if t[0] not in ("return", "while-cond")]
+    for i in range(n):
+        steps = {k: rng.randint(2, 3) for k in BY_KINDS}
+        name, site, tmpl = rng.choice(slide_stmts)
+        bads = ILLTYPED if site == "action-event" else BAD
+        bk = rng.choice(sorted(bads))
+        faulty = [t.replace("{X}", bads[bk]) for t in tmpl]
+        healthy = ["$ok = 1"]
+        launch = rng.choice(["start", "activate"])
+        fault_after = rng.randint(1, 2)            # number of bystander steps before the fault
+
+        def by_flow(kind):
+            ls = []
+            for j in range(steps[kind]):
+                ls += [f"match S{j + 1}()", f"send By_{kind}_{j + 1}()"]
+            return f'@loop("l_{kind}")\nflow by_{kind}\n' + "\n".join("  " + l for l in ls)
+
+        def program(stmt):
+            fl = ["flow child $p\n  match NeverC()"] + [by_flow(k) for k in BY_KINDS]
+            fl.append('@loop("l_holder")\nflow holder\n  await by_awaited\n  send By_holder_done()')
+            bad = ["$f = 1", "activate by_actshared", "match Go()"] + stmt + ["match NeverB()"]
+            fl.append("flow bad\n" + "\n".join("  " + l for l in bad))
+            main = ["start by_plain", "start holder", "activate by_acthealthy", "activate by_actshared", f"{launch} bad", "match NeverM()"]
+            if rng_order:
+                main = [f"{launch} bad"] + main[:-2] + ["match NeverM()"]
+            fl.append("flow main\n" + "\n".join("  " + l for l in main))
+            return "\n\n".join(fl) + "\n"
+
+        rng_order = rng.random() < 0.5
+        events = [f"S{j + 1}" for j in range(fault_after)] + ["Go"] + [f"S{j + 1}" for j in range(fault_after, 3)] + ["S1", "S2", "S3"]
+        meta = {"stmt": name, "bad": bk, "launch": launch, "fault_after_steps": fault_after, "steps": steps, "bad_first": rng_order}
+        pairs.append(({"id": f"prog{i}_f", "kind": "progress", "src": program(faulty), "events": events, "meta": meta, "pair": f"prog{i}_r"},
+                      {"id": f"prog{i}_r", "kind": "progress-ref", "src": program(healthy), "events": events, "meta": meta}))
+    return pairs
+
+
+def progress_verdict(case, r, rref):
+    for x in (r, rref):
+        if x.get("hang") or x.get("crash"):
+            return [("hang", "interpreter did not return")]
+        if x.get("error"):
+            return [("harness-error", x["error"])]
+        if any(e["status"] != "ok" for e in x.get("events", [])):
+            return [("event-processing-does-not-terminate", str([e["status"] for e in x["events"]]))]
+    bad = []
+    for k, (e1, e2) in enumerate(zip(r["events"], rref["events"])):
+        o1 = sorted(t for t in e1.get("out", []) if t.startswith("By_"))
+        o2 = sorted(t for t in e2.get("out", []) if t.startswith("By_"))
+        if o1 != o2:
+            diff = sorted(set(o1) ^ set(o2)) or o1
+            kind = diff[0].split("_")[1] if diff else "?"
+            evn = (["<start>"] + [str(x) for x in case["events"]])[k]
+            bad.append((f"{kind}:differs-from-run-without-fault",
+                        f"event #{k} ({evn}): bystander outputs {o1} with the faulty flow, {o2} when the same flow does not fail"))
+            break
+    return bad
+
+
 def scenario_verdict(case, r):
     """Corpus kind "scenario": a program, events and the expected observable reactions
     (expect.out[k] = event types that must be among the outputs of event k (0 = start of main),
@@ -1642,6 +1711,16 @@ def run(tier, seed, replay=None):
         xc = gen_exchange_cases(rng, int((14 if quick else 120) * scale))
         n_xchg = len(xc)
         cases += xc
+    n_prog = 0
+    if not replay:
+        for a, b2 in gen_progress_pairs(rng, int((24 if quick else 240) * scale)):
+            cases += [a, b2]
+            n_prog += 1
+    elif cases and cases[0].get("kind") == "progress" and cases[0].get("src_ref"):
+        ref = dict(cases[0])
+        ref.update({"id": "replay_ref", "kind": "progress-ref", "src": cases[0]["src_ref"]})
+        cases[0]["pair"] = "replay_ref"
+        cases.append(ref)
     by_id = {c["id"]: c for c in cases}
     dirs = shipped_dirs() if not replay else []
     nship = 8
@@ -1735,6 +1814,18 @@ def run(tier, seed, replay=None):
         elif kind == "observe":
             observations[c["name"]] = ("does not terminate (step budget exceeded)" if any(e["status"] == "budget" for e in r.get("events", []))
                                        else "hang" if r.get("hang") else "terminates" if not r.get("error") else r.get("error"))
+        elif kind == "progress-ref":
+            pass
+        elif kind == "progress":
+            rref = results.get(c.get("pair"), {"error": "missing"})
+            for what, det in progress_verdict(c, r, rref):
+                if what == "harness-error":
+                    if not str(det).startswith("init:"):
+                        out.add_broken("harness:progress-case", f"{c['id']}: {det}")
+                    continue
+                add_finding(f"bystander-progress:{what}", f"fault `{c['meta']['stmt']}` ({c['meta']['bad']}) in flow `bad`: {det}",
+                            {"kind": "progress", "src": c["src"], "src_ref": by_id.get(c.get("pair"), {}).get("src"), "events": c["events"],
+                             "meta": c["meta"], "observed": det})
         elif kind == "exchange":
             for what, det in exchange_verdict(c, r):
                 if what == "harness-error":
@@ -1915,6 +2006,7 @@ def run(tier, seed, replay=None):
             "shipped_unguarded_flows": shipped_unguarded[:20], "flows_checked_by_guardedb": len(g_terms), "unguarded_flows": len(unguarded),
             "cascade_bound": bound_stats, "restart_decisions": restart_stats,
             "observations_outside_the_premise": observations,
+            "bystander_progress_pairs": n_prog,
             "event_exchange_through_process_events": {"programs": n_xchg, "max_events_handled_in_one_call": max(xchg_handled + [0])},
         },
         "traces_validated_against_impl": len(slide_terms),
